@@ -827,7 +827,9 @@ def run_part(ctx):
         if ctx._driver_ok:
             out = ctx.driver(lines)
             for (case, code), model in zip(pending, out):
-                if code != model:
+                # which error a re-read of a malformed OUTPUT hits first depends on the printed sibling
+                # order (Python set order in the code, insertion order in the model): compare the fact only
+                if code != model and not (str(code).startswith("reread-err:") and str(model).startswith("reread-err:")):
                     ctx.disagree({"part": PART, **case}, code, model)
             ctx.hit("cp2k-model-comparisons", len(lines))
     finally:
